@@ -41,7 +41,7 @@ import pyref as R  # noqa: E402
 
 INTERNAL_SKS = (3, 11, R.b2i(hashlib.sha256(b"C06/internal/1").digest()) % R.N_ORDER)   # 11: odd-Y point (negated in the seckey tweak)
 PREFIXES = ((None, "bcrt"), ("--addrprefix=tb", "tb"), ("-pbc", "bc"), ("--addrprefix=bcrt", "bcrt"))
-SWEEP_PATTERNS = ("distinct", "equal", "alt")
+SWEEP_PATTERNS = ("distinct", "equal", "alt", "spelled")   # spelled: leaves given as bracketed text with an inline function (same bytes as their hex form)
 RT_PATTERNS = ("csig", "csigarg")             # leaves <pk_i> OP_CHECKSIG  /  OP_DROP <pk_i> OP_CHECKSIG with one spend argument
 PLACEHOLDER = bytes(range(16)) * 4
 SPEND_ARG = "0x2a"
@@ -94,6 +94,20 @@ def _alt_list(nmax):
     return tuple(out)
 
 
+def _prog20(i):
+    return hashlib.sha256(b"C06/prog/%d" % i).digest()[:20]
+
+
+def spelling_for(pattern, i, script):
+    """how leaf i is written on tap's command line"""
+    if pattern == "spelled":
+        # a version-0 segwit address of the 20-byte value (odd leaves) / its plain hex in brackets (even leaves)
+        if i & 1:
+            return "[bech32dec(%s) OP_2DROP OP_1]" % R.segwit_addr_encode("bc", 0, _prog20(i))
+        return "[%s OP_2DROP OP_1]" % _prog20(i).hex()
+    return hx(script)
+
+
 def scripts_for(pattern, n):
     if pattern == "distinct":
         return [_s(i) for i in range(n)]
@@ -101,6 +115,8 @@ def scripts_for(pattern, n):
         return [_s(0x3FFF)] * n
     if pattern == "alt":
         return list(_alt_list(1024 + 2)[:n])
+    if pattern == "spelled":
+        return [bytes([20]) + _prog20(i) + bytes([0x6D, 0x51]) for i in range(n)]     # <20 bytes> OP_2DROP OP_1
     if pattern == "csig":
         return [b"\x20" + leaf_pk(i) + b"\xac" for i in range(n)]
     if pattern == "csigarg":
@@ -114,9 +130,9 @@ def make_jobs(tier):
     for ki in range(len(INTERNAL_SKS)):
         for pi in range(len(PREFIXES)):
             for pat in SWEEP_PATTERNS:
-                for n in range(1, b["N"] + 1):
+                for n in range(1, (min(b["N"], 8 if tier == "quick" else 16) if pat == "spelled" else b["N"]) + 1):
                     jobs.append(dict(ki=ki, pattern=pat, n=n, pi=pi, indices=list(range(n))))
-                for n in b["big"]:
+                for n in (() if pat == "spelled" else b["big"]):
                     jobs.append(dict(ki=ki, pattern=pat, n=n, pi=pi, indices=big_indices(n)))
             for pat in RT_PATTERNS:
                 for n in b["rt"]:
@@ -219,7 +235,7 @@ class Group:
         self.scripts = scripts_for(self.pattern, self.n)
         self.popt = [PREFIXES[self.pi][0]] if PREFIXES[self.pi][0] else []
         self.hrp = PREFIXES[self.pi][1]
-        self.ident = [self.K.hex(), str(self.n)] + [hx(s) for s in self.scripts]
+        self.ident = [self.K.hex(), str(self.n)] + [spelling_for(self.pattern, i, s) for i, s in enumerate(self.scripts)]
         self.args = [SPEND_ARG] if self.pattern == "csigarg" else []
         self.is_rt = self.pattern in RT_PATTERNS
         self.viol = []          # (key, what, replay)
